@@ -436,6 +436,26 @@ func (c *EvalCtx) eval(e *SExpr) Value {
 			return Forall(bs, body)
 		}
 		return Exists(bs, body)
+	case "link":
+		// the IRI an item is identified by: the result of its GetLink method
+		iv, ok := c.eval(args[0]).(*IfaceVal)
+		if !ok {
+			if t, ok := c.eval(args[0]).(*Term); ok && t.S == SStr {
+				return t
+			}
+			panic(unsupported("contract: link of non-item " + args[0].String()))
+		}
+		st := c.st.clone()
+		np := len(ex.panics)
+		r := ex.invoke(st, iv, ex.methodOf("LinkOrIRI", "GetLink"), nil, fakeCall(ex.world, "GetLink"))
+		ex.panics = ex.panics[:np]
+		return r
+	case "isNilItem":
+		iv, ok := c.eval(args[0]).(*IfaceVal)
+		if !ok {
+			panic(unsupported("contract: isNilItem of non-item " + args[0].String()))
+		}
+		return ex.isNilSpec(iv)
 	case "bytesEq":
 		a, b := c.term(args[0]), c.term(args[1])
 		return Or(Eq(a, b), And(Eq(BLen(a), IntLit(0)), Eq(BLen(b), IntLit(0))), Eq(B2S(a), B2S(b)))
@@ -492,3 +512,52 @@ func (c *EvalCtx) eq(a, b Value) *Term {
 }
 
 var _ = types.Typ
+
+func (ex *Exec) methodOf(iface, name string) *types.Func {
+	it := ex.pkg.Pkg.Scope().Lookup(iface).Type().Underlying().(*types.Interface)
+	for i := 0; i < it.NumMethods(); i++ {
+		if it.Method(i).Name() == name {
+			return it.Method(i)
+		}
+	}
+	panic(unsupported("method " + name + " not in " + iface))
+}
+
+// isNilSpec is the callee contract of IsNil used where its body is not executed: untyped nil, nil
+// pointers and the empty / "-" IRI are nil-like; for an item of unknown dynamic type the answer is the
+// uninterpreted predicate isNilItem(x).
+func (ex *Exec) isNilSpec(iv *IfaceVal) *Term {
+	var r *Term = TFalse
+	for _, al := range ex.normIface(iv).Alts {
+		var t *Term
+		switch {
+		case al.Opaque != nil:
+			t = Or(Eq(tagOfItem(al.Opaque), TagNil), App("isNilItem", SBool, al.Opaque))
+		case al.T == nil:
+			t = TTrue
+		default:
+			switch v := al.V.(type) {
+			case *PtrVal:
+				t = Not(nonNilPtr(v))
+			case *Term:
+				if v.S == SStr {
+					t = Or(Eq(SLen(v), IntLit(0)), Eq(Fold(v), StrLit("-")))
+				} else {
+					t = TFalse
+				}
+			case *SliceVal:
+				var cs []*Term
+				for _, sa := range v.Alts {
+					if sa.O == nil {
+						cs = append(cs, sa.C)
+					}
+				}
+				t = Or(cs...)
+			default:
+				t = TFalse
+			}
+		}
+		r = Ite(al.C, t, r)
+	}
+	return r
+}
